@@ -1,6 +1,7 @@
 package harness
 
 import (
+	"time"
 	"encoding/json"
 	"errors"
 	"fmt"
@@ -490,7 +491,8 @@ func init() {
 			n := 0
 			transports := [][]string{nil, {"polling"}, {"websocket"}, {"webtransport"}, {"bogus"}, {"bogus", "polling"}, {"polling", "bogus"}}
 			origins := Pick(c, []string{"", "nul"}, []string{"", "ok", "nul", "lf"})
-			eios := Pick(c, []string{"", "3", "4"}, []string{"", "3", "4", "5", "x"})
+			// "04" and "+4" are other spellings of the number 4, not the revision value "4"
+			eios := Pick(c, []string{"", "3", "4", "04"}, []string{"", "3", "4", "04", "+4", "5", "x"})
 			for _, method := range []string{"GET", "POST", "PUT", "OPTIONS"} {
 				for _, tr := range transports {
 					for _, sid := range []string{"", "unknown", "polling", "websocket", "closed"} {
@@ -520,4 +522,70 @@ func init() {
 			c.Note("one server configuration x every request shape: method {GET,POST,PUT,OPTIONS} x transport {absent,polling,websocket,webtransport,bogus,repeated} x sid {absent,unknown,polling session,websocket session,closed session} x Origin %v x upgrade/plain x EIO %v; registry holds a polling, a websocket and a closed session; oracle = first failing check in the documented precedence", origins, eios)
 		})
 	}
+}
+
+// A refused request whose client has already gone (or goes while the application's hook is deciding) is
+// still reported: exactly one connection_error with the documented code, nothing registered, handler returns.
+func admLeftBody(kind string) vsched.Body {
+	return func(x *vsched.Exec) {
+		o := config.DefaultServerOptions()
+		var cur *Resp
+		if kind == "hook-denies-after-client-left" {
+			o.SetAllowRequest(func(*types.HttpContext) error {
+				if cur != nil {
+					cur.Abort()
+					vsched.Sleep(time.Millisecond) // the hook takes a while; the disconnect is noticed meanwhile
+				}
+				return errors.New(hookText)
+			})
+		}
+		w := NewWorld(x, o)
+		wantCode := map[string]int{"hook-denies-after-client-left": 4, "unknown-transport": 0, "unknown-sid": 1, "bad-method": 2, "unsupported-version": 5}[kind]
+		target := map[string]string{
+			"hook-denies-after-client-left": "/engine.io/?EIO=4&transport=polling",
+			"unknown-transport":             "/engine.io/?EIO=4&transport=bogus",
+			"unknown-sid":                   "/engine.io/?EIO=4&transport=polling&sid=AAAAAAAAAAAAAAAAAAAAAAAA",
+			"bad-method":                    "/engine.io/?EIO=4&transport=polling",
+			"unsupported-version":           "/engine.io/?EIO=3&transport=polling",
+		}[kind]
+		method := "GET"
+		opt := ReqOpt{}
+		if kind == "bad-method" {
+			method = "POST"
+			opt.Body = []byte{}
+		}
+		r := w.Request(method, target, opt)
+		cur = r
+		if kind != "hook-denies-after-client-left" {
+			vsched.GoNamed("client-leaves", func() { r.Abort() })
+		}
+		x.Run(x.Now() + time.Second)
+		cls := "[" + kind + "]"
+		for _, t := range x.Panics() {
+			x.Fail("panic[admission client-left]: thread %s: %v", t.Name, t.Panic)
+		}
+		if len(w.ConnErrs) != 1 {
+			x.Fail("admission-connection-error%s: %d connection_error events %v for one refused request whose client had left", cls, len(w.ConnErrs), w.ConnErrs)
+		} else if !strings.HasPrefix(w.ConnErrs[0], fmt.Sprintf("%d:", wantCode)) {
+			x.Fail("admission-connection-error-code%s: connection_error %q, documented code %d", cls, w.ConnErrs[0], wantCode)
+		}
+		if w.Srv.ClientsCount() != 0 || len(w.Socks) != 0 {
+			x.Fail("admission-created-session%s: a refused request registered a session", cls)
+		}
+		if !r.Returned {
+			x.Fail("admission-handler-blocked%s: the handler of a refused request did not return", cls)
+		}
+		x.Outcome = fmt.Sprint(w.ConnErrs)
+	}
+}
+
+func init() {
+	register("C05", "client-left", false, func(c *Ctx) {
+		kinds := []string{"hook-denies-after-client-left", "unknown-transport", "unknown-sid", "bad-method", "unsupported-version"}
+		for _, k := range kinds {
+			c.Explore("refused request, client left: "+k, Pick(c, 2, 3), admLeftBody(k))
+		}
+		c.Res.Distinct = int64(len(kinds))
+		c.Note("a request refused for each documented reason whose client disconnects before / while it is being decided, every interleaving of the disconnect with the handler up to the bound: one connection_error with the documented code, no session, handler returns")
+	})
 }
